@@ -508,6 +508,9 @@ func runC07(c *wk.Ctx) {
 	directed := c07Directed(wk.NewRand(c.Seed, "C07-directed", 0))
 	c.Meta("cov.directed_scripts", len(directed))
 	nScripts := int64(len(directed)) + c.N(40, 3000)
+	if c.Variant == "race" {
+		nScripts = int64(len(directed)) + c.N(60, 3000)
+	}
 	c.Cases(nScripts, func(idx int64, r *wk.Rand) {
 		var items []c07Item
 		if idx < int64(len(directed)) {
@@ -548,7 +551,13 @@ func runC07(c *wk.Ctx) {
 			run(-1, true, r.Bool(), r.Intn(len(items)+2))
 		}
 		// every truncation point (burst delivery; gates after EOF), and a sample with gates first
-		if total <= 600 {
+		if c.Variant == "race" {
+			// the race-detector build repeats the whole-script deliveries (above) and a sample of the cuts: what it
+			// adds is the detector, not more offsets
+			for k := 0; k < 12 && total > 0; k++ {
+				run(r.Intn(total), false, r.Bool(), -1)
+			}
+		} else if total <= 600 {
 			for cut := 0; cut < total; cut++ {
 				run(cut, false, cut%2 == 0, -1)
 			}
